@@ -380,7 +380,15 @@ func (BatchStatusMonitor) OnWrite(x *Ctx, w *Write) {
 		}
 		if after.Spec.ReleasePlan.FinalizingPolicy == rolloutsv1beta1.WaitResumeFinalizingPolicyType && after.Spec.ReleasePlan.BatchPartition == nil &&
 			(v.Updated < v.Replicas || v.UpdatedReady < v.Replicas) && after.DeletionTimestamp == nil {
-			x.Violate("C11/completed/wait-resume-not-waited/"+sc.Kind+"-"+sc.Style, fmt.Sprintf("BatchRelease (policy WaitResume) reported Completed with %d/%d pods updated and %d ready", v.Updated, v.Replicas, v.UpdatedReady))
+			// three different shortfalls, three signatures
+			class := "not-all-updated"
+			if v.Updated >= v.Replicas {
+				class = "all-updated-but-not-all-ready"
+				if v.UpdatedReady+v.MaxUnavailable >= v.Replicas {
+					class = "all-updated-unready-within-workload-maxUnavailable"
+				}
+			}
+			x.Violate("C11/completed/wait-resume-not-waited/"+sc.Kind+"-"+sc.Style+"/"+class, fmt.Sprintf("BatchRelease (policy WaitResume) reported Completed with %d/%d pods updated and %d ready", v.Updated, v.Replicas, v.UpdatedReady))
 		}
 	}
 }
